@@ -305,3 +305,6 @@ func init() {
 func writeStore(w *world.World, store string, u interface{}) error {
 	return w.WriteStoreNamed(store, u)
 }
+
+// ParsePath parses the canonical rendering of a Path (keys without ']' or '/').
+func ParsePath(s string) world.Path { return mustPath(nil, s) }
